@@ -302,6 +302,8 @@ func (s *Solver) argv(name string) []string {
 			t = s.TimeoutMs
 		}
 		return []string{"z3-new", "-in", fmt.Sprintf("-t:%d", t)}
+	case "z3-int":
+		return []string{"z3-new", "-in", fmt.Sprintf("-t:%d", s.TimeoutMs)}
 	case "z3-newr":
 		return []string{"z3-new", "-in", fmt.Sprintf("-t:%d", s.TimeoutMs)}
 	case "cvc5":
@@ -444,6 +446,10 @@ func parseModel(s string) map[string]*big.Int {
 			case strings.HasPrefix(val, "#b"):
 				v, _ := new(big.Int).SetString(val[2:], 2)
 				m[name] = v
+			case len(val) > 0 && val[0] >= '0' && val[0] <= '9':
+				if v, ok := new(big.Int).SetString(val, 10); ok {
+					m[name] = v
+				}
 			case val == "true":
 				m[name] = big.NewInt(1)
 			case val == "false":
@@ -480,7 +486,18 @@ func (s *Solver) Check(asserts []*term.Term, wantModel bool) (Result, map[string
 	note := ""
 	for _, name := range s.Order {
 		t0 := time.Now()
-		res, model, e := s.run(name, script, vars, wantModel)
+		qs, qv := script, vars
+		if name == "z3-int" {
+			is, iv, ok := ScriptInt(live)
+			if !ok {
+				continue // not an arithmetic-only query
+			}
+			qs, qv = is, iv
+			if s.DumpDir != "" {
+				os.WriteFile(fmt.Sprintf("%s/q%05d.int.smt2", s.DumpDir, s.nq), []byte(is+"(check-sat)\n"), 0o644)
+			}
+		}
+		res, model, e := s.run(name, qs, qv, wantModel)
 		st := s.Stats[name]
 		if st == nil {
 			st = &Stat{}
